@@ -149,11 +149,11 @@ func (w *World) findIterCopy(rel string) *iterCopy {
 }
 
 func checkC19(r *Run) {
-	r.Rule("R1", "symbolic interval of the counter iterator: Next yields pos+1 while pos < end (strict, on the fields, pre-increment) and nil afterwards; the constructors' fields as linear forms give range = a..b, between = a+1..b-1, until = 0..a-1", 8)
-	r.Rule("R2", "extremes of int: no +-1 on an unconstrained int outside a dominating strict comparison (wrapping arithmetic on caller-controlled values)", 2)
-	r.Rule("R3", "both shipped implementations agree: the two copies of range/between/until/Next/groupBy have equal summaries", 3)
-	r.Rule("R4", "partition by construction: first group starts at 0, each group starts where the previous ended, the end is clamped to Len() of the same value, the step is the group size = ceil(len/size), the loop runs while pos < Len(); size <= 0 and non-sequences are errors", 12)
-	r.Rule("R5", "panic obligations: Slice on an array only after it was made addressable; len(x) takes the reflective length only under a kind test covering exactly the kinds that have one, after dereferencing a pointer", 3)
+	r.Rule("R1", "symbolic interval of the counter iterator: Next yields pos+1 while pos < end (strict, on the fields, pre-increment) and nil afterwards; the constructors' fields as linear forms give range = a..b, between = a+1..b-1, until = 0..a-1", 4)
+	r.Rule("R2", "extremes of int: no +-1 on an unconstrained int outside a dominating strict comparison (wrapping arithmetic on caller-controlled values)", 1)
+	r.Rule("R3", "both shipped implementations agree: the two copies of range/between/until/Next/groupBy have equal summaries", 1)
+	r.Rule("R4", "partition by construction: first group starts at 0, each group starts where the previous ended, the end is clamped to Len() of the same value, the step is the group size = ceil(len/size), the loop runs while pos < Len(); size <= 0 and non-sequences are errors", 6)
+	r.Rule("R5", "panic obligations: Slice on an array only after it was made addressable; len(x) takes the reflective length only under a kind test covering exactly the kinds that have one, after dereferencing a pointer", 1)
 	w := r.W
 	copies := []*iterCopy{w.findIterCopy("helpers/iterators"), w.findIterCopy("")}
 	for _, ic := range copies {
